@@ -201,7 +201,7 @@ func runC05(c *checker) {
 		logf("%s: %d ops", b.id(), len(cs.ops))
 		cs.run()
 	}
-	c.rep.Rule = "reader schema R = a random compiled program; writer schema W = R after random evolution steps on its structs (add/remove field, change type, change requiredness, reorder, change container element types, rename); values of W (reference-encoded, fields permuted, unset defaults written or omitted) through both decoding paths of R under {whole, 1-byte, random incl. zero-length reads, seekable}; plus injection of arbitrary well-formed fields (unknown id, or declared id with another wire type; any type/size; under an unknown id 1 in 8 below 40–300 levels of structs / lists / sets / map values) at every struct level of a valid encoding; expected result = the rule itself evaluated by the harness; non-trivial = every case; distinct by (program, op)"
+	c.rep.Rule = "reader schema R = a random compiled program; writer schema W = R after random evolution steps on its structs (add/remove field, change type, change requiredness, reorder, change container element types, rename); values of W (reference-encoded, fields permuted, unset defaults written or omitted) through both decoding paths of R under {whole, 1-byte, random incl. zero-length reads, seekable}; plus injection of arbitrary well-formed fields (unknown id, or declared id with another wire type, or a declared field a second time with its own type and value; any type/size; under an unknown id 1 in 8 below 40–300 levels of structs / lists / sets / map values) at every struct level of a valid encoding; expected result = the rule itself evaluated by the harness; non-trivial = every case; distinct by (program, op)"
 }
 
 func init() {
